@@ -208,7 +208,7 @@ func (g *c18Gen) snapshot() *c18Snap {
 			if r.Chance(1, 3) {
 				b.Spec.PassiveMode = ptr.To(r.Bool())
 			}
-			if r.Chance(1, 30) {
+			if r.Chance(1, 8) {
 				b.Spec.EchoMode = ptr.To(true) // rejected together with an IPv6 pool advertised to that peer
 				b.Spec.EchoInterval = ptr.To(uint32(50))
 				g.tag("bfd-echo")
@@ -276,8 +276,14 @@ func (g *c18Gen) snapshot() *c18Snap {
 			if r.Chance(1, 5) {
 				p.Spec.ConnectTime = &metav1.Duration{Duration: time.Duration(r.Range(1, 30)) * time.Second}
 			}
-			if r.Chance(1, 5) {
+			if r.Chance(1, 3) {
 				p.Spec.VRFName = "red"
+				// one local AS per VRF (the FRR-mode validator demands it); sometimes a conflicting one
+				p.Spec.MyASN = 64600
+			}
+			if r.Chance(1, 12) {
+				p.Spec.MyASN = 64700
+				g.tag("my-asn-conflict")
 			}
 			if r.Chance(1, 6) {
 				p.Spec.ASN = 0
@@ -896,12 +902,26 @@ func c18CheckOrders(c *vfCase, s *c18Snap) (accepted bool) {
 		}
 	}
 
+	// the parser itself (config.For, as the admission webhook's validator calls it, without the sorting
+	// toConfig does first): its verdict on the snapshot as generated
+	_, rawErr := config.For(c18CopyRes(c18Ordered(s.Res, nil, nil)), c18Validator(s.Mode))
+	rawAccepted := rawErr == nil
+
 	// every permutation of the pools x a seeded shuffle of every other listed kind
 	perms := c18Perms(len(s.Res.Pools))
 	rechecks := 0
 	for pi, perm := range perms {
 		in := c18Ordered(s.Res, perm, c.R.Fork())
 		order := c18OrderNames(in)
+		if pi < 24 {
+			_, e2 := config.For(c18CopyRes(in), c18Validator(s.Mode))
+			c.Eval()
+			c.Count("parser-verdicts-compared")
+			if (e2 == nil) != rawAccepted {
+				report("acceptance-depends-on-order:parser", fmt.Sprintf("config.For on the generation order: %s; on listing order %v: %s", c18ErrText(rawErr), order, c18ErrText(e2)),
+					map[string]any{"order": order, "permutation": pi})
+			}
+		}
 		got := c18Load(c18CopyRes(in), s.Mode)
 		c.Eval()
 		c.Count("permutations-compared")
